@@ -36,15 +36,15 @@ Lemma atomic_upgrade_hooks_example :
     statuses (w_led w') = [(1, SSuperseded); (2, SFailed); (3, SDeployed)] /\
     data_view w' = [("ConfigMap/a", Some "v1"); ("ConfigMap/b", Some "v1"); ("ConfigMap/hp", None)].
 Proof.
-  repeat (split; [reflexivity|]).
+  do 4 (split; [reflexivity|]).
   split; [vm_compute; repeat constructor; simpl; tauto|].
   split; [vm_compute; intros x [<-|[]]; discriminate|].
   split; [vm_compute; reflexivity|]. split; [vm_compute; reflexivity|].
   split; [vm_compute; repeat constructor; simpl; intuition discriminate|].
   split; [vm_compute; repeat constructor; simpl; intuition discriminate|].
-  repeat (split; [reflexivity|]).
+  do 10 (split; [vm_compute; reflexivity|]).
   split; [intros key; discriminate|].
-  split; [intros r [<-|[<-|[]]]; reflexivity|].
+  split; [intros r [<-|[<-|[]]]; vm_compute; reflexivity|].
   eexists. eexists. vm_compute. repeat split.
 Qed.
 
@@ -69,9 +69,9 @@ Lemma atomic_upgrade_after_deletion_example :
     data_view w' = [("ConfigMap/a", Some "v1"); ("ConfigMap/b", Some "v1")].
 Proof.
   split; [vm_compute; reflexivity|]. split; [vm_compute; reflexivity|].
-  repeat (split; [reflexivity|]).
+  do 5 (split; [vm_compute; reflexivity|]).
   split.
-  { intros r live [<-|[<-|[]]] Hk; [discriminate|]. vm_compute. intros E. inversion E. reflexivity. }
+  { intros r live [<-|[<-|[]]] Hk; [vm_compute in Hk; discriminate Hk|]. vm_compute. intros E. inversion E. reflexivity. }
   eexists. eexists. vm_compute. repeat split.
 Qed.
 
@@ -120,8 +120,8 @@ Lemma atomic_upgrade_hook_fault_example :
     statuses (w_led w') = [(1, SSuperseded); (2, SFailed); (3, SDeployed)] /\
     data_view w' = [("ConfigMap/a", Some "v1"); ("ConfigMap/b", Some "v1")].
 Proof.
-  repeat (split; [reflexivity|]).
-  split; [vm_compute; reflexivity|]. repeat (split; [reflexivity|]).
-  split; [intros r [<-|[<-|[]]]; reflexivity|].
+  do 3 (split; [reflexivity|]).
+  split; [vm_compute; reflexivity|]. do 2 (split; [vm_compute; reflexivity|]).
+  split; [intros r [<-|[<-|[]]]; vm_compute; reflexivity|].
   eexists. eexists. vm_compute. repeat split.
 Qed.
